@@ -33,7 +33,12 @@ MANIFEST = dict(
          "primitives and every access style (keyword read, brackets, column-subset objects, SFile) funnels into them with argument "
          "roles preserved; (6) split/reduce helpers are total and order preserving; (7) the C++ skip-and-read loops, evaluated over a "
          "file-cursor model for every row/column selection of a small table, transfer exactly the bytes that indexing the full table "
-         "would give.  Where the code leaves the evaluator's fragment the structural form of the rule is used instead.",
+         "would give.  Where the code leaves the evaluator's fragment the structural form of the rule is used instead.  Two clauses are "
+         "decided symbolically for all inputs: (1e) the slice row count, in Python and in C++, is evaluated as an integer polynomial over "
+         "stop-start = q*step + r (cases r = 0 and 1 <= r < step, // and % by the step resolved by polynomial division and sign "
+         "reasoning valid for every value) and must be the polynomial q resp. q+1; (7j) the text row skipper is analysed over a finite "
+         "abstract domain of what each read consumed (newline / other character / chunk with or without newline) with the balance "
+         "newlines consumed - rows counted, which must be 0 at every return.",
     note="Not decided: element-wise equality with in-memory indexing for all table sizes (numpy indexing, libc reads and the per-column "
          "text scanner are trusted; the evaluation is exhaustive only over small model tables). Assumes positive slice steps (property "
          "quantifier). Trusted: slice.indices, numpy.unique, CPython ast, clang AST, SWIG naming.",
@@ -49,7 +54,7 @@ SEMANTIC = ('R02.1b', 'R02.1c', 'R02.1e', 'R02.2a', 'R02.2b', 'R02.2c', 'R02.4',
             'R02.1f::eval::', 'R02.3a::eval::', 'R02.3b::eval::', 'R02.3c::eval::', 'R02.3d::eval::',
             'R02.5b::eval::', 'R02.5c::eval::', 'R02.5d::eval::', 'R02.5e::eval::', 'R02.5f::eval::',
             'R02.6a::eval::', 'R02.6d::eval::', 'R02.6e::eval::',
-            'R02.7a::eval::', 'R02.7b::eval::', 'R02.7e::eval::', 'R02.7f::eval::', 'R02.7j::eval::')
+            'R02.7a::eval::', 'R02.7b::eval::', 'R02.7e::eval::', 'R02.7f::eval::', 'R02.7j::eval::', 'R02.7j::sem::')
 
 CPP = "esutil/recfile/records.cpp"
 U = "esutil.recfile.Util."
@@ -347,11 +352,23 @@ def r02_1(chk, repo, F, cfun, S):
     key = U + "Recfile._get_slice_nrows::row-count-is-ceil-division"
     msg = "number of rows allocated for a normalised slice is ceil((stop-start)/step)"
     if not _ev_any(chk, S, [("brackets", ["count"]), ("slice-direct", ["count"])], "R02.1e", key, gs.where(), msg):
-        okc, why = _is_ceil_div_py(F["_get_slice_nrows"].node) if F["_get_slice_nrows"] is not None else (False, "helper not found")
-        if okc:
-            chk.ob("R02.1e", key, True, gs.where(), "%s: %s" % (msg, why))
+        # symbolic form: the count as a term over all normalised slices (decides both ways); then the reviewed shapes (pass only)
+        try:
+            sym = _sym_count_py(repo)
+        except _Und as e:
+            sym = (None, "symbolic form: %s" % e)
+        except AnalysisError:
+            raise
+        except Exception as e:        # a defect of the symbolic evaluator must never become a verdict
+            sym = (None, "symbolic form: %s: %s" % (type(e).__name__, e))
+        if sym[0] is not None:
+            chk.ob("R02.1e", key, sym[0], gs.where(), "%s: %s" % (msg, sym[1]))
         else:
-            _unrec(chk, S, "slice-direct", "R02.1e", key, gs.where(), msg + " (%s)" % why)
+            okc, why = _is_ceil_div_py(F["_get_slice_nrows"].node) if F["_get_slice_nrows"] is not None else (False, "helper not found")
+            if okc:
+                chk.ob("R02.1e", key, True, gs.where(), "%s: %s" % (msg, why))
+            else:
+                _unrec(chk, S, "slice-direct", "R02.1e", key, gs.where(), msg + " (%s; %s)" % (why, sym[1]))
     # (e) C++
     ps = cfun.get("Records::process_slice")
     key = "Records::process_slice::row-count-is-ceil-division"
@@ -364,11 +381,22 @@ def r02_1(chk, repo, F, cfun, S):
         if not _ev(chk, S, "c/slice@at-data", ["size"], "R02.1e", key, _cwhere(rb), msg, scope="c/slice"):
             _unrec(chk, S, "c/slice@at-data", "R02.1e", key, _cwhere(rb), msg)
     elif not _ev(chk, S, "c/pslice", ["count"], "R02.1e", key, _cwhere(ps), msg):
-        okc, why = _is_ceil_div_c(ps)
-        if okc:
-            chk.ob("R02.1e", key, True, _cwhere(ps), "%s: %s" % (msg, why))
+        try:
+            sym = _sym_count_c(ps)
+        except _Und as e:
+            sym = (None, "symbolic form: %s" % e)
+        except AnalysisError:
+            raise
+        except Exception as e:        # a defect of the symbolic evaluator must never become a verdict
+            sym = (None, "symbolic form: %s: %s" % (type(e).__name__, e))
+        if sym[0] is not None:
+            chk.ob("R02.1e", key, sym[0], _cwhere(ps), "%s: %s" % (msg, sym[1]))
         else:
-            _unrec(chk, S, "c/pslice", "R02.1e", key, _cwhere(ps), msg + " (%s)" % why)
+            okc, why = _is_ceil_div_c(ps)
+            if okc:
+                chk.ob("R02.1e", key, True, _cwhere(ps), "%s: %s" % (msg, why))
+            else:
+                _unrec(chk, S, "c/pslice", "R02.1e", key, _cwhere(ps), msg + " (%s; %s)" % (why, sym[1]))
     # (f) the array handed to the C++ slice reader has the file dtype; argument roles of the C++ call
     rb = F["_read_binary_slice"] or gi
     a = _ev(chk, S, "brackets", ["buffer"], "R02.1f", "eval::" + rb.qualname + "::buffer-has-file-dtype", rb.where(),
@@ -493,6 +521,704 @@ def _is_ceil_div_c(fn):
                             and cfront.render(m["inner"][1]) == s and d.replace(" ", "") == "(row2-row1)":
                         return True, "%s/%s + [%s %% %s != 0]" % (d, s, d, s)
     return False, "count expression %s not recognised structurally" % cfront.render(ret)
+
+
+# ---------------------------------------------------------------------------
+# R02.1e, symbolic form: the row count of a normalised slice as a term over ALL slices.
+#
+# Every normalised slice has stop - start = q*step + r with q >= 0, 0 <= r < step, step >= 1, start >= 0.  The count expression is
+# evaluated symbolically (integer polynomials in start, q, r, step; // and % by the step resolved by polynomial division and sign
+# reasoning that holds for every value of the symbols) once for r = 0 and once for 1 <= r <= step-1, and has to come out as the
+# polynomial q, respectively q + 1: that is ceil((stop-start)/step).  A result that is a different polynomial is a different
+# function on an infinite (Zariski dense) set of slices, hence a wrong count for some slice: a violation.  Anything outside the
+# fragment (floats, loops, undecided comparisons) gives no verdict from this form.
+# ---------------------------------------------------------------------------
+class _Und(Exception):
+    """not decidable in the symbolic count domain: no verdict from this form"""
+
+
+class _CountStop(Exception):
+    def __init__(self, args):
+        self.args_ = args
+
+
+class _CountRaise(Exception):
+    pass
+
+
+class _Poison(object):
+    def __init__(self, why):
+        self.why = why
+
+
+class _Buf(object):
+    def __init__(self, shape):
+        self.shape = shape
+
+
+class _SliceV(object):
+    def __init__(self, start, stop, step):
+        self.start, self.stop, self.step = start, stop, step
+
+
+class _CeilDom(object):
+    """the symbols and the case (0: r == 0, step >= 1;  1: 1 <= r <= step-1) every decision is made for"""
+
+    def __init__(self, case):
+        import sympy as sp
+        self.sp = sp
+        self.case = case
+        self.a, self.q, self.r, self.s = sp.symbols("start q r step", integer=True)
+        self.u, self.t = sp.symbols("_u _t", integer=True)
+        if case == 0:
+            self.rv = sp.Integer(0)
+            self.shift = {self.s: 1 + self.t}
+        else:
+            self.rv = self.r
+            self.shift = {self.r: 1 + self.u, self.s: 2 + self.u + self.t}
+        self.base = (self.a, self.q, self.u, self.t)
+        self.d = self.q * self.s + self.rv
+        self.want = self.q + (0 if case == 0 else 1)
+
+    def nonneg(self, p):
+        """p >= 0 for every value of the symbols (sufficient: all coefficients over the shifted non-negative variables are >= 0)"""
+        sp = self.sp
+        e = sp.expand(sp.sympify(p).subs(self.shift))
+        if e.free_symbols - set(self.base):
+            return False
+        if e.is_number:
+            return bool(e >= 0)
+        try:
+            return all(c >= 0 for c in sp.Poly(e, *self.base).coeffs())
+        except Exception:
+            return False
+
+    def is_zero(self, p):
+        return self.sp.expand(self.sp.sympify(p).subs(self.shift)) == 0
+
+    def floordiv(self, n, d):
+        """(floor(n/d), n mod d) for d the step (or 1)"""
+        sp = self.sp
+        n, d = sp.sympify(n), sp.sympify(d)
+        if d == 1:
+            return n, sp.Integer(0)
+        if sp.expand(d - self.s) != 0:
+            raise _Und("division by %s, which is not the slice step" % d)
+        n = sp.expand(n)
+        if n.free_symbols - {self.a, self.q, self.r, self.s}:
+            raise _Und("division of a term with unknown symbols: %s" % n)
+        try:
+            A, B = sp.div(sp.Poly(n, self.s), sp.Poly(self.s, self.s))
+            A, B = A.as_expr(), B.as_expr()
+        except Exception as e:
+            raise _Und("polynomial division failed: %s" % e)
+        if any(not c.is_integer for c in sp.Poly(A, self.s, self.a, self.q, self.r).coeffs()) if A != 0 else False:
+            raise _Und("non-integer quotient")
+        for k in (0, -1, 1, -2, 2):
+            Bk = B - k * self.s
+            if self.nonneg(Bk) and self.nonneg(self.s - 1 - Bk):
+                return sp.expand(A + k), sp.expand(Bk)
+        raise _Und("cannot place the remainder %s of %s / step inside one step for all slices" % (B, n))
+
+    def truncdiv(self, n, d):
+        """C integer division and remainder (truncation toward zero)"""
+        if self.nonneg(n):
+            return self.floordiv(n, d)
+        if self.nonneg(-self.sp.sympify(n)):
+            qq, rr = self.floordiv(-self.sp.sympify(n), d)
+            return -qq, -rr
+        raise _Und("sign of the dividend %s is not the same for all slices" % n)
+
+    def compare(self, op, x, y):
+        sp = self.sp
+        x, y = sp.sympify(x), sp.sympify(y)
+        if op in (">", ">="):
+            op, x, y = {">": "<", ">=": "<="}[op], y, x
+        if op == "==" or op == "!=":
+            if self.is_zero(x - y):
+                res = True
+            elif self.nonneg(x - y - 1) or self.nonneg(y - x - 1):
+                res = False
+            else:
+                raise _Und("%s == %s is not decided for all slices" % (x, y))
+            return res if op == "==" else not res
+        if op == "<":
+            if self.nonneg(y - x - 1):
+                return True
+            if self.nonneg(x - y):
+                return False
+        if op == "<=":
+            if self.nonneg(y - x):
+                return True
+            if self.nonneg(x - y - 1):
+                return False
+        raise _Und("%s %s %s is not decided for all slices" % (x, op, y))
+
+    def verdict(self, res):
+        """None when the count is ceil for this case, else a witness text"""
+        sp = self.sp
+        diff = sp.expand((sp.sympify(res) - self.want).subs(self.shift))
+        if diff == 0:
+            return None
+        if diff.free_symbols - set(self.base):
+            raise _Und("count %s depends on more than the slice" % res)
+        import itertools as it
+        for av, qv, uv, tv in it.product(range(0, 2), range(0, 4), range(0, 4), range(0, 4)):
+            val = diff.subs({self.a: av, self.q: qv, self.u: uv, self.t: tv})
+            if val != 0:
+                sv = (1 + tv) if self.case == 0 else (2 + uv + tv)
+                rv = 0 if self.case == 0 else 1 + uv
+                dv = qv * sv + rv
+                wantv = qv + (0 if self.case == 0 else 1)
+                return "as a term over all slices with stop-start = q*step + r, %s, the count is %s and not %s: e.g. a slice with " \
+                       "stop-start = %d and step = %d gets %d rows instead of %d" % (
+                           "r = 0" if self.case == 0 else "1 <= r < step", sp.expand(sp.sympify(res)), self.want, dv, sv, wantv + val, wantv)
+        raise _Und("count %s differs from %s as a polynomial but no small witness was found" % (res, self.want))
+
+
+def _as_int(dom, v):
+    import sympy as sp
+    if isinstance(v, bool):
+        return sp.Integer(1 if v else 0)
+    if isinstance(v, int):
+        return sp.Integer(v)
+    if isinstance(v, sp.Expr):
+        return v
+    if isinstance(v, _Poison):
+        raise _Und(v.why)
+    raise _Und("not an integer: %r" % (v,))
+
+
+class _PyCount(object):
+    """symbolic evaluation of straight-line / branching integer code of Recfile up to the call of the C++ slice reader"""
+
+    def __init__(self, repo, dom, bind):
+        import sympy as sp
+        self.sp = sp
+        self.repo = repo
+        self.dom = dom
+        self.bind = bind or {}
+        self.depth = 0
+
+    def sym(self, name):
+        s = self.sp.Symbol(name, integer=True)
+        return self.bind.get(s, s)
+
+    # -- statements ---------------------------------------------------------
+    def run(self, fi, args, kw):
+        env = {}
+        params = [p for p in fi.params if not p.startswith("*")]
+        for i, p in enumerate(params):
+            if i < len(args):
+                env[p] = args[i]
+            elif p in kw:
+                env[p] = kw[p]
+            elif p in fi.defaults:
+                env[p] = self.expr(fi.defaults[p], {})
+            else:
+                env[p] = self.sym(p)
+        r = self.block(fi.node.body, env)
+        return r[1] if r is not None else None
+
+    def block(self, stmts, env):
+        for st in stmts:
+            r = self.stmt(st, env)
+            if r is not None:
+                return r
+        return None
+
+    @staticmethod
+    def _always_raises(stmts):
+        return bool(stmts) and isinstance(stmts[-1], ast.Raise)
+
+    def stmt(self, st, env):
+        if isinstance(st, ast.Expr):
+            try:
+                self.expr(st.value, env)
+            except _Und:
+                pass
+            return None
+        if isinstance(st, (ast.Pass, ast.Assert, ast.Import, ast.ImportFrom, ast.Global)):
+            return None
+        if isinstance(st, ast.Return):
+            return ("ret", self.expr(st.value, env) if st.value is not None else None)
+        if isinstance(st, ast.Raise):
+            raise _CountRaise()
+        if isinstance(st, (ast.Assign, ast.AnnAssign, ast.AugAssign)):
+            if isinstance(st, ast.AugAssign):
+                value = ast.BinOp(left=st.target, op=st.op, right=st.value)
+                targets = [st.target]
+            else:
+                if st.value is None:
+                    return None
+                value = st.value
+                targets = st.targets if isinstance(st, ast.Assign) else [st.target]
+            try:
+                v = self.expr(value, env)
+            except _Und as e:
+                v = _Poison(str(e))
+            for t in targets:
+                self.assign(t, v, env)
+            return None
+        if isinstance(st, ast.If):
+            try:
+                c = self.truth(self.expr(st.test, env))
+            except _Und:
+                if self._always_raises(st.body) and not st.orelse:
+                    return None
+                if self._always_raises(st.orelse):
+                    return self.block(st.body, env)
+                raise
+            return self.block(st.body if c else st.orelse, env)
+        raise _Und("statement %s outside the fragment" % type(st).__name__)
+
+    def assign(self, t, v, env):
+        if isinstance(t, ast.Name):
+            env[t.id] = v
+        elif isinstance(t, (ast.Tuple, ast.List)):
+            if isinstance(v, tuple) and len(v) == len(t.elts):
+                for e, x in zip(t.elts, v):
+                    self.assign(e, x, env)
+            else:
+                for e in t.elts:
+                    self.assign(e, v if isinstance(v, _Poison) else _Poison("unpacking of an unknown value"), env)
+        else:
+            raise _Und("assignment to %s" % norm(t))
+
+    def truth(self, v):
+        if isinstance(v, bool):
+            return v
+        if v is None:
+            return False
+        if isinstance(v, (_Buf, _SliceV)):
+            raise _Und("truth of an object")
+        return self.dom_cmp("!=", _as_int(self.dom, v), 0)
+
+    def dom_cmp(self, op, x, y):
+        if self.dom is None:
+            raise _Und("no slice bound yet")
+        return self.dom.compare(op, x, y)
+
+    # -- expressions --------------------------------------------------------
+    def expr(self, e, env):
+        sp = self.sp
+        if isinstance(e, ast.Constant):
+            if isinstance(e.value, bool) or e.value is None or isinstance(e.value, str):
+                return e.value
+            if isinstance(e.value, int):
+                return sp.Integer(e.value)
+            raise _Und("constant %r" % (e.value,))
+        if isinstance(e, ast.Name):
+            if e.id in env:
+                return env[e.id]
+            return self.sym(e.id)
+        if isinstance(e, ast.Attribute):
+            b = self.expr(e.value, env)
+            if isinstance(b, _SliceV) and e.attr in ("start", "stop", "step"):
+                return getattr(b, e.attr)
+            if isinstance(b, _Buf) and e.attr == "size":
+                return b.shape
+            if isinstance(b, sp.Symbol):
+                return self.sym("%s.%s" % (b.name, e.attr))
+            raise _Und("attribute %s" % norm(e))
+        if isinstance(e, ast.Tuple):
+            return tuple(self.expr(x, env) for x in e.elts)
+        if isinstance(e, ast.UnaryOp):
+            v = self.expr(e.operand, env)
+            if isinstance(e.op, ast.Not):
+                return not self.truth(v)
+            if isinstance(e.op, ast.USub):
+                return -_as_int(self.dom, v)
+            if isinstance(e.op, ast.UAdd):
+                return _as_int(self.dom, v)
+            raise _Und("operator %s" % norm(e))
+        if isinstance(e, ast.BinOp):
+            l, r = _as_int(self.dom, self.expr(e.left, env)), _as_int(self.dom, self.expr(e.right, env))
+            if isinstance(e.op, ast.Add):
+                return sp.expand(l + r)
+            if isinstance(e.op, ast.Sub):
+                return sp.expand(l - r)
+            if isinstance(e.op, ast.Mult):
+                return sp.expand(l * r)
+            if isinstance(e.op, (ast.FloorDiv, ast.Mod)):
+                if self.dom is None:
+                    raise _Und("no slice bound yet")
+                qq, rr = self.dom.floordiv(l, r)
+                return qq if isinstance(e.op, ast.FloorDiv) else rr
+            raise _Und("operator in %s" % norm(e))
+        if isinstance(e, ast.Compare):
+            l = self.expr(e.left, env)
+            for op, rn in zip(e.ops, e.comparators):
+                r = self.expr(rn, env)
+                if isinstance(op, (ast.Is, ast.IsNot)) and (l is None or r is None):
+                    if isinstance(l, sp.Symbol) or isinstance(r, sp.Symbol) or isinstance(l, _Poison) or isinstance(r, _Poison):
+                        raise _Und("identity of an unknown")
+                    res = (l is r) if isinstance(op, ast.Is) else (l is not r)
+                elif type(op) in _OPNAME and _OPNAME[type(op)] in ("<", "<=", ">", ">=", "==", "!="):
+                    res = self.dom_cmp(_OPNAME[type(op)], _as_int(self.dom, l), _as_int(self.dom, r))
+                else:
+                    raise _Und("comparison %s" % norm(e))
+                if not res:
+                    return False
+                l = r
+            return True
+        if isinstance(e, ast.BoolOp):
+            v = None
+            for x in e.values:
+                v = self.expr(x, env)
+                tr = self.truth(v)
+                if isinstance(e.op, ast.And) and not tr:
+                    return v
+                if isinstance(e.op, ast.Or) and tr:
+                    return v
+            return v
+        if isinstance(e, ast.IfExp):
+            return self.expr(e.body if self.truth(self.expr(e.test, env)) else e.orelse, env)
+        if isinstance(e, ast.Call):
+            return self.call(e, env)
+        raise _Und("expression %s outside the fragment" % norm(e))
+
+    def call(self, c, env):
+        sp = self.sp
+        name = call_name(c)
+        recv = dotted_name(c.func.value) if isinstance(c.func, ast.Attribute) else None
+        if any(isinstance(a, ast.Starred) for a in c.args) or any(k.arg is None for k in c.keywords):
+            raise _Und("star arguments")
+        if name == "read_binary_slice" and recv is not None and recv != "self":
+            raise _CountStop([self.safe(a, env) for a in c.args])
+        if recv is None and name in ("int", "long", "bool", "abs", "len", "range", "divmod", "slice", "max", "min"):
+            args = [self.expr(a, env) for a in c.args]
+            if name in ("int", "long") and len(args) == 1:
+                return _as_int(self.dom, args[0])
+            if name == "bool" and len(args) == 1:
+                return self.truth(args[0])
+            if name == "abs" and len(args) == 1:
+                v = _as_int(self.dom, args[0])
+                return v if self.dom_cmp(">=", v, 0) else -v
+            if name == "divmod" and len(args) == 2:
+                if self.dom is None:
+                    raise _Und("no slice bound yet")
+                return self.dom.floordiv(_as_int(self.dom, args[0]), _as_int(self.dom, args[1]))
+            if name == "slice" and 1 <= len(args) <= 3:
+                a3 = [None, args[0], None] if len(args) == 1 else (args + [None])[:3]
+                return _SliceV(*a3)
+            if name == "range":
+                return ("range",) + tuple(args)
+            if name == "len" and len(args) == 1 and isinstance(args[0], tuple) and args[0][:1] == ("range",):
+                return self.len_range(args[0][1:])
+            if name in ("max", "min") and len(args) == 2:
+                x, y = _as_int(self.dom, args[0]), _as_int(self.dom, args[1])
+                ge = self.dom_cmp(">=", x, y)
+                return (x if ge else y) if name == "max" else (y if ge else x)
+            raise _Und("call %s" % norm(c))
+        if name in ("zeros", "empty", "ndarray", "recarray") and recv is not None and recv.split(".")[0] in ("numpy", "np"):
+            shp = c.args[0] if c.args else kwarg(c, "shape")
+            if shp is None:
+                raise _Und("buffer without a shape")
+            v = self.expr(shp, env)
+            if isinstance(v, tuple) and len(v) == 1:
+                v = v[0]
+            return _Buf(v)
+        if recv is not None and isinstance(c.func, ast.Attribute):
+            try:
+                b = self.expr(c.func.value, env)
+            except _Und:
+                b = None
+            if isinstance(b, _Buf) and name == "view":
+                return b
+            if isinstance(b, _SliceV) and name == "indices":
+                raise _Und("slice.indices on a symbolic slice")
+        if recv == "self" and self.repo.has(U + "Recfile." + name) and self.depth < 4:
+            fi = self.repo.func(U + "Recfile." + name)
+            args = [self.sym("self")] + [self.safe(a, env) for a in c.args]
+            kw = {k.arg: self.safe(k.value, env) for k in c.keywords}
+            self.depth += 1
+            try:
+                return self.run(fi, args, kw)
+            finally:
+                self.depth -= 1
+        # any other call: an unknown value
+        for a in c.args:
+            self.safe(a, env)
+        return self.sym("call<%s>@%s" % (norm(c.func), getattr(c, "lineno", 0)))
+
+    def safe(self, e, env):
+        try:
+            return self.expr(e, env)
+        except _Und as x:
+            return _Poison(str(x))
+
+    def len_range(self, a):
+        """len(range(lo, hi, st)) for hi >= lo, st the step: trusted builtin, it IS the ceiling"""
+        sp = self.sp
+        lo, hi, st = (sp.Integer(0), a[0], sp.Integer(1)) if len(a) == 1 else (a[0], a[1], a[2] if len(a) == 3 else sp.Integer(1))
+        lo, hi, st = _as_int(self.dom, lo), _as_int(self.dom, hi), _as_int(self.dom, st)
+        if not self.dom_cmp(">=", hi, lo):
+            return sp.Integer(0)
+        qq, rr = self.dom.floordiv(hi - lo, st)
+        return qq + (1 if self.dom_cmp("!=", rr, 0) else 0)
+
+
+def _find_slice_reader_caller(repo):
+    found = []
+    for qn, fi in repo.funcs.items():
+        if not qn.startswith(U + "Recfile."):
+            continue
+        for x in walk_no_nested(fi.node):
+            if isinstance(x, ast.Call) and call_name(x) == "read_binary_slice" and isinstance(x.func, ast.Attribute) \
+                    and dotted_name(x.func.value) not in (None, "self"):
+                found.append((fi, x))
+    return found
+
+
+def _sym_count_py(repo):
+    """(True, text) / (False, text) / raises _Und: the buffer handed to <robj>.read_binary_slice(buf, start, stop, step) has
+    ceil((stop-start)/step) rows for every normalised slice"""
+    import sympy as sp
+    sites = _find_slice_reader_caller(repo)
+    if len(sites) != 1:
+        raise _Und("%d call sites of the C++ slice reader" % len(sites))
+    fi, call = sites[0]
+    if len(call.args) != 4 or call.keywords:
+        raise _Und("the C++ slice reader is not called with (buffer, start, stop, step)")
+    ev = _PyCount(repo, None, None)
+    try:
+        ev.run(fi, [], {})
+        raise _Und("the call of the C++ slice reader is not reached on the straight path")
+    except _CountStop as s:
+        a0 = s.args_
+    except _CountRaise:
+        raise _Und("the path to the C++ slice reader raises")
+    st, sp_, se = a0[1], a0[2], a0[3]
+    if isinstance(st, _Poison) or isinstance(sp_, _Poison) or isinstance(se, _Poison):
+        raise _Und("start/stop/step handed to the C++ reader are not plain values")
+    if not (isinstance(sp_, sp.Symbol) and isinstance(se, sp.Symbol) and (isinstance(st, sp.Symbol) or (isinstance(st, sp.Integer) and st >= 0))
+            and len({st, sp_, se}) == 3):
+        raise _Und("start/stop/step handed to the C++ reader are not three independent inputs (%s, %s, %s)" % (st, sp_, se))
+    seen = []
+    for case in (0, 1):
+        dom = _CeilDom(case)
+        a = st if isinstance(st, sp.Integer) else dom.a
+        bind = {sp_: a + dom.d, se: dom.s}
+        if isinstance(st, sp.Symbol):
+            bind[st] = dom.a
+        ev = _PyCount(repo, dom, bind)
+        try:
+            ev.run(fi, [], {})
+            raise _Und("the call of the C++ slice reader is not reached")
+        except _CountStop as s:
+            buf = s.args_[0]
+        except _CountRaise:
+            raise _Und("the path to the C++ slice reader raises")
+        if not isinstance(buf, _Buf):
+            raise _Und("the buffer handed to the C++ slice reader is not a fresh numpy.zeros/empty array")
+        n = _as_int(dom, buf.shape)
+        w = dom.verdict(n)
+        if w is not None:
+            return False, "%s (buffer allocated in %s)" % (w, fi.name)
+        seen.append(str(sp.expand(n)))
+    return True, "symbolically, with stop-start = q*step + r: %s rows when r = 0 and %s rows when 1 <= r < step" % (seen[0], seen[1])
+
+
+class _CCount(object):
+    """the same evaluation for a loop-free C/C++ function returning the count"""
+
+    def __init__(self, dom, env):
+        import sympy as sp
+        self.sp = sp
+        self.dom = dom
+        self.env = env
+
+    def run(self, fn):
+        r = self.block(cfront.body_of(fn))
+        if r is None:
+            raise _Und("no return value")
+        return r[1]
+
+    def block(self, st):
+        k = st.get("kind")
+        inner = [c for c in (st.get("inner", []) or []) if isinstance(c, dict)]
+        if k == "CompoundStmt":
+            for s in inner:
+                r = self.block(s)
+                if r is not None:
+                    return r
+            return None
+        if k == "DeclStmt":
+            for d in inner:
+                if d.get("kind") == "VarDecl" and d.get("name"):
+                    ini = [y for y in d.get("inner", []) if isinstance(y, dict) and y.get("kind")]
+                    if ini and "init" in d:
+                        self.env[d["name"]] = self.safe(ini[-1])
+                    else:
+                        self.env[d["name"]] = _Poison("uninitialised %s" % d["name"])
+            return None
+        if k == "ReturnStmt":
+            return ("ret", _as_int(self.dom, self.expr(inner[0])) if inner else None)
+        if k == "IfStmt":
+            try:
+                c = self.truth(self.expr(inner[0]))
+            except _Und:
+                arms = inner[1:]
+                if len(arms) == 1 and self._throws(arms[0]):
+                    return None
+                if not any(self._writes(a) for a in arms):
+                    return None
+                raise
+            if c:
+                return self.block(inner[1])
+            return self.block(inner[2]) if len(inner) > 2 else None
+        if k in ("NullStmt",):
+            return None
+        if k in ("ForStmt", "WhileStmt", "DoStmt", "SwitchStmt", "GotoStmt", "LabelStmt", "CXXTryStmt", "BreakStmt", "ContinueStmt"):
+            raise _Und("%s outside the fragment" % k)
+        s = cfront.strip(st)
+        if s.get("kind") == "CXXThrowExpr":
+            raise _CountRaise()
+        if self._writes(st):
+            self.expr(st)
+        return None
+
+    @staticmethod
+    def _throws(st):
+        body = [c for c in (st.get("inner", []) or []) if isinstance(c, dict)] if st.get("kind") == "CompoundStmt" else [st]
+        return bool(body) and cfront.strip(body[-1]).get("kind") == "CXXThrowExpr"
+
+    @staticmethod
+    def _writes(st):
+        for x in cfront.walk(st):
+            k = x.get("kind")
+            if k in ("ReturnStmt", "VarDecl", "CompoundAssignOperator", "GotoStmt", "BreakStmt", "ContinueStmt"):
+                return True
+            if k == "BinaryOperator" and x.get("opcode") == "=":
+                return True
+            if k == "UnaryOperator" and x.get("opcode") in ("++", "--", "&"):
+                return True
+        return False
+
+    def truth(self, v):
+        if isinstance(v, bool):
+            return v
+        return self.dom.compare("!=", _as_int(self.dom, v), 0)
+
+    def safe(self, e):
+        try:
+            return self.expr(e)
+        except _Und as x:
+            return _Poison(str(x))
+
+    def expr(self, e):
+        sp = self.sp
+        ty = cfront.cast_type(e) or (e.get("type", {}).get("qualType", "") if e.get("kind") == "ImplicitCastExpr" else "")
+        if ty and any(w in ty for w in ("double", "float")):
+            raise _Und("floating point")
+        k = e.get("kind")
+        if k in ("ImplicitCastExpr", "ParenExpr", "CStyleCastExpr", "ConstantExpr", "ExprWithCleanups", "CXXStaticCastExpr", "CXXFunctionalCastExpr"):
+            inner = [c for c in e.get("inner", []) if isinstance(c, dict)]
+            return self.expr(inner[-1] if k == "CXXFunctionalCastExpr" else inner[0])
+        inner = [c for c in (e.get("inner", []) or []) if isinstance(c, dict)]
+        if k == "IntegerLiteral":
+            return sp.Integer(int(e.get("value")))
+        if k == "CXXBoolLiteralExpr":
+            return bool(e.get("value"))
+        if k == "DeclRefExpr":
+            nm = e.get("referencedDecl", {}).get("name")
+            if nm in self.env:
+                v = self.env[nm]
+                if isinstance(v, _Poison):
+                    raise _Und(v.why)
+                return v
+            return sp.Symbol("c:" + str(nm), integer=True)
+        if k == "MemberExpr":
+            return sp.Symbol("c:" + cfront.render(e), integer=True)
+        if k == "UnaryOperator":
+            op = e.get("opcode")
+            if op in ("++", "--"):
+                t = cfront.strip(inner[0])
+                if t.get("kind") != "DeclRefExpr":
+                    raise _Und("update of %s" % cfront.render(t))
+                nm = t["referencedDecl"]["name"]
+                old = _as_int(self.dom, self.expr(t))
+                new = old + (1 if op == "++" else -1)
+                self.env[nm] = new
+                return old if e.get("isPostfix") else new
+            v = self.expr(inner[0])
+            if op == "-":
+                return -_as_int(self.dom, v)
+            if op == "+":
+                return _as_int(self.dom, v)
+            if op == "!":
+                return not self.truth(v)
+            raise _Und("operator %s" % op)
+        if k == "ConditionalOperator":
+            return self.expr(inner[1] if self.truth(self.expr(inner[0])) else inner[2])
+        if k in ("BinaryOperator", "CompoundAssignOperator"):
+            op = e.get("opcode")
+            if op == "=" or k == "CompoundAssignOperator":
+                t = cfront.strip(inner[0])
+                if t.get("kind") != "DeclRefExpr":
+                    raise _Und("assignment to %s" % cfront.render(t))
+                nm = t["referencedDecl"]["name"]
+                if k == "CompoundAssignOperator":
+                    try:
+                        v = self.arith(op[:-1], self.expr(t), self.expr(inner[1]))
+                    except _Und as x:
+                        v = _Poison(str(x))
+                else:
+                    v = self.safe(inner[1])
+                self.env[nm] = v
+                if isinstance(v, _Poison):
+                    raise _Und(v.why)
+                return v
+            if op == "&&":
+                return self.truth(self.expr(inner[0])) and self.truth(self.expr(inner[1]))
+            if op == "||":
+                return self.truth(self.expr(inner[0])) or self.truth(self.expr(inner[1]))
+            if op == ",":
+                self.safe(inner[0])
+                return self.expr(inner[1])
+            l, r = self.expr(inner[0]), self.expr(inner[1])
+            if op in ("<", "<=", ">", ">=", "==", "!="):
+                return self.dom.compare(op, _as_int(self.dom, l), _as_int(self.dom, r))
+            return self.arith(op, l, r)
+        raise _Und("expression %s outside the fragment" % cfront.render(e)[:60])
+
+    def arith(self, op, l, r):
+        sp = self.sp
+        l, r = _as_int(self.dom, l), _as_int(self.dom, r)
+        if op == "+":
+            return sp.expand(l + r)
+        if op == "-":
+            return sp.expand(l - r)
+        if op == "*":
+            return sp.expand(l * r)
+        if op in ("/", "%"):
+            qq, rr = self.dom.truncdiv(l, r)
+            return qq if op == "/" else rr
+        raise _Und("operator %s" % op)
+
+
+def _sym_count_c(fn):
+    """the value returned by the C++ count helper (parameters by position: first row, end row, step) is ceil((row2-row1)/step)"""
+    import sympy as sp
+    ps = cfront.params_of(fn)
+    if len(ps) != 3:
+        raise _Und("count helper does not take (row1, row2, step)")
+    seen = []
+    for case in (0, 1):
+        dom = _CeilDom(case)
+        ev = _CCount(dom, {ps[0]: dom.a, ps[1]: dom.a + dom.d, ps[2]: dom.s})
+        try:
+            n = ev.run(fn)
+        except _CountRaise:
+            raise _Und("the helper throws for valid slices")
+        if n is None:
+            raise _Und("no value returned")
+        w = dom.verdict(n)
+        if w is not None:
+            return False, w
+        seen.append(str(sp.expand(n)))
+    return True, "symbolically, with row2-row1 = q*step + r: %s rows when r = 0 and %s rows when 1 <= r < step" % (seen[0], seen[1])
 
 
 def _r02_1_structural(chk, repo, F):
@@ -1505,6 +2231,7 @@ def r02_7(chk, cfun, S):
         done &= _ev(chk, S, "c/skips", [name], "R02.7j", "eval::Records::%s::distance" % name, _cwhere(fn), msg)
     if not done:
         _r02_7j_structural(chk, cfun)
+    _r02_7j_semantic(chk, cfun)
 
 
 def _r02_7i_absolute_seek(fn):
@@ -1649,6 +2376,606 @@ def _r02_7_columns_structural(chk, fname, fn, kind):
     okk = "(row2read = irow)" in src and any("rows" in s and "irow" in s for s in src if s != "(row2read = irow)")
     chk.ob("R02.7h", fname + "::row-number-source", okk, W,
            "the row to read is rows[irow] (or irow when all rows are read): %s" % src)
+
+
+# ---------------------------------------------------------------------------
+# R02.7j, semantic form: the text row skipper counts a row exactly when it has consumed that row's newline.
+#
+# Forward analysis over the C++ CFG with a finite abstract domain that covers every file content: an abstract state is a set of
+# (balance, read site, class of what that read consumed) where balance = newlines consumed - rows counted (clamped to [-2, 2]) and
+# the class is, for a one-character read, {newline, each character literal the function compares with, any other character}, for a
+# bounded line read (fgets) {chunk ends in a newline, chunk without a newline because the buffer was full}, for an unbounded
+# line read (getline) {whole line}.  Comparisons of the consumed character / chunk with literals refine the set along the two
+# edges; an update of the row counter subtracts one.  Every normal return must have balance 0 in every element: a negative
+# balance is a row counted whose newline was not consumed (the cursor is left inside a row, later rows are mis-numbered).
+# The end of the file inside the skipped region is outside the property (row selections are range checked), so reads are assumed
+# not to hit EOF.  Uses of the consumed data that the domain does not model (copies into other variables, arithmetic, other
+# calls on the stream) give no verdict.
+# ---------------------------------------------------------------------------
+class _SkUnsup(Exception):
+    pass
+
+
+_SK_CHAR = ("fgetc", "getc", "getc_unlocked", "fgetc_unlocked", "_IO_getc")
+_SK_LINE = ("fgets", "fgets_unlocked")
+_SK_FULL = ("getline",)
+_SK_NEUTRAL = ("feof", "ferror", "clearerr", "fileno", "ftell", "ftello", "feof_unlocked", "ferror_unlocked")
+_SK_NLCLS = ("NL", "ENDS_NL", "FULL")
+
+
+def _sk_inner(x):
+    return [c for c in (x.get("inner", []) or []) if isinstance(c, dict) and c.get("kind")]
+
+
+def _sk_const(x):
+    """integer value of a literal expression (EOF is -1, NULL is 0), else None"""
+    x = cfront.strip(x)
+    k = x.get("kind")
+    if k == "IntegerLiteral":
+        try:
+            return int(x.get("value"))
+        except Exception:
+            return None
+    if k == "CharacterLiteral":
+        return int(x.get("value"))
+    if k in ("GNUNullExpr", "CXXNullPtrLiteralExpr"):
+        return 0
+    if k == "UnaryOperator" and x.get("opcode") == "-":
+        v = _sk_const(_sk_inner(x)[0])
+        return -v if v is not None else None
+    return None
+
+
+def _sk_name(x):
+    x = cfront.strip(x)
+    if x.get("kind") == "DeclRefExpr":
+        return x.get("referencedDecl", {}).get("name")
+    return None
+
+
+def _sk_is_file(x):
+    return "FILE" in (x.get("type", {}) or {}).get("qualType", "") or "FILE" in (cfront.strip(x).get("type", {}) or {}).get("qualType", "")
+
+
+class _SkipCount(object):
+    def __init__(self, fn):
+        self.fn = fn
+        self.body = cfront.body_of(fn)
+        self.imprecise = []
+        self.sites = {}          # id(call node) -> dict(kind, line, name, holders:set, buf)
+        self.lits = set()
+        self.inloop = set()
+        self.counters = set()
+        self.aliases = {}        # variable -> buffer it is strlen() of
+        self._prepass()
+
+    # -- syntactic preparation ------------------------------------------------
+    def _prepass(self):
+        for x in cfront.walk(self.body):
+            if x.get("kind") in ("SwitchStmt", "GotoStmt", "LabelStmt", "CXXTryStmt", "IndirectGotoStmt", "CXXForRangeStmt", "LambdaExpr"):
+                raise _SkUnsup("%s in the row skipper" % x.get("kind"))
+            if x.get("kind") in ("ForStmt", "WhileStmt", "DoStmt"):
+                parts = [c for c in (x.get("inner", []) or []) if isinstance(c, dict)]
+                for part in (parts[1:] if x.get("kind") == "ForStmt" else parts):      # the init of a for runs once, before the loop
+                    for y in cfront.walk(part):
+                        self.inloop.add(id(y))
+            if x.get("kind") == "CharacterLiteral":
+                self.lits.add(int(x.get("value")))
+        params = set(cfront.params_of(self.fn))
+        derived = set(params)
+        decls = {}
+        assigns = []            # (name, rhs, node)
+        for x in cfront.walk(self.body):
+            k = x.get("kind")
+            if k == "VarDecl" and x.get("name"):
+                decls[x["name"]] = x
+                ini = _sk_inner(x)
+                if ini and "init" in x:
+                    assigns.append((x["name"], ini[-1], x))
+            elif k == "BinaryOperator" and x.get("opcode") == "=":
+                nm = _sk_name(_sk_inner(x)[0])
+                if nm:
+                    assigns.append((nm, _sk_inner(x)[1], x))
+        changed = True
+        while changed:
+            changed = False
+            for nm, rhs, node in assigns:
+                if nm not in derived and any(_sk_name(y) in derived for y in cfront.walk(rhs) if y.get("kind") == "DeclRefExpr"):
+                    derived.add(nm)
+                    changed = True
+        # strlen aliases and read sites
+        for nm, rhs, node in assigns:
+            r = cfront.strip(rhs)
+            if r.get("kind") == "CallExpr" and cfront.callee_name(r) == "strlen" and len(cfront.call_args(r)) == 1:
+                b = _sk_name(cfront.call_args(r)[0])
+                if b and sum(1 for n2, _, _ in assigns if n2 == nm) == 1:
+                    self.aliases[nm] = b
+        for c in cfront.calls_in(self.body):
+            nm = cfront.callee_name(c)
+            args = cfront.call_args(c)
+            if nm in _SK_CHAR and len(args) == 1:
+                self.sites[id(c)] = dict(kind="char", line=c.get("line", 0), name=nm, holders=set(), buf=None, text=cfront.render(c))
+            elif nm in _SK_LINE and len(args) == 3:
+                b = _sk_name(args[0])
+                if b is None:
+                    raise _SkUnsup("fgets into %s" % cfront.render(args[0]))
+                self.sites[id(c)] = dict(kind="line", line=c.get("line", 0), name=nm, holders=set(), buf=b, text=cfront.render(c))
+            elif nm in _SK_FULL and len(args) == 3:
+                self.sites[id(c)] = dict(kind="full", line=c.get("line", 0), name=nm, holders=set(), buf=None, text=cfront.render(c))
+        for nm, rhs, node in assigns:
+            r = cfront.strip(rhs)
+            if id(r) in self.sites:
+                self.sites[id(r)]["holders"].add(nm)
+        # row counters: integer variables stepped by one inside a loop and tied to the number of rows to skip
+        stepped = set()
+        for x in cfront.walk(self.body):
+            if id(x) not in self.inloop:
+                continue
+            v = self._step_of(x)
+            if v is not None:
+                stepped.add(v)
+        holders = {h for s in self.sites.values() for h in s["holders"]} | {s["buf"] for s in self.sites.values() if s["buf"]}
+        linked = set()
+        for x in cfront.walk(self.body):
+            if x.get("kind") == "BinaryOperator" and x.get("opcode") in ("<", "<=", ">", ">=", "==", "!="):
+                l, r = _sk_inner(x)
+                for a, b in ((l, r), (r, l)):
+                    na = {_sk_name(y) for y in cfront.walk(a) if y.get("kind") == "DeclRefExpr"}
+                    nb = {_sk_name(y) for y in cfront.walk(b) if y.get("kind") == "DeclRefExpr"}
+                    if nb & derived:
+                        linked |= na
+        for v in stepped - holders:
+            d = decls.get(v)
+            ty = (d or {}).get("type", {}).get("qualType", "") if d else ""
+            if d is None and v not in params:
+                continue
+            if "char" in ty or "*" in ty or "[" in ty:
+                continue
+            if v in derived or v in linked:
+                self.counters.add(v)
+        self.tainted = set(holders) | set(self.aliases)
+
+    def _step_of(self, x):
+        """name of the variable this expression steps by one, else None"""
+        k = x.get("kind")
+        if k == "UnaryOperator" and x.get("opcode") in ("++", "--"):
+            return _sk_name(_sk_inner(x)[0])
+        if k == "CompoundAssignOperator" and x.get("opcode") in ("+=", "-="):
+            if _sk_const(_sk_inner(x)[1]) == 1:
+                return _sk_name(_sk_inner(x)[0])
+        if k == "BinaryOperator" and x.get("opcode") == "=":
+            v = _sk_name(_sk_inner(x)[0])
+            r = cfront.strip(_sk_inner(x)[1])
+            if v and r.get("kind") == "BinaryOperator" and r.get("opcode") in ("+", "-"):
+                a, b = _sk_inner(r)
+                if (_sk_name(a) == v and _sk_const(b) == 1) or (r.get("opcode") == "+" and _sk_name(b) == v and _sk_const(a) == 1):
+                    return v
+        return None
+
+    # -- abstract states ---------------------------------------------------------
+    def classes(self, site):
+        if site["kind"] == "char":
+            return ["NL"] + [("lit", k) for k in sorted(self.lits) if k != 10] + ["OTHER"]
+        if site["kind"] == "line":
+            return ["ENDS_NL", "NO_NL"]
+        return ["FULL"]
+
+    def consume(self, st, call):
+        sid = id(call)
+        site = self.sites[sid]
+        out = set()
+        for bal, _, _, blame in st:
+            for c in self.classes(site):
+                nb = max(-2, min(2, bal + (1 if c in _SK_NLCLS else 0)))
+                out.add((nb, sid, c, blame if nb < 0 else None))
+        return frozenset(out)
+
+    @staticmethod
+    def count(st):
+        """one row counted; an element whose balance becomes negative remembers what had been read when that row was counted"""
+        return frozenset((max(-2, bal - 1), s, c, (blame if blame is not None else (s, c)) if bal - 1 < 0 else None) for bal, s, c, blame in st)
+
+    def note(self, why):
+        if why not in self.imprecise:
+            self.imprecise.append(why)
+
+    def refine(self, st, match, keep_true):
+        """split st by a test on the chunk of the sites selected by `match`: keep_true(cls) says which classes make the test true"""
+        t, f = set(), set()
+        for e in st:
+            bal, sid, cls, _blame = e
+            if sid is None or not match(self.sites[sid]):
+                if sid is not None:
+                    self.note("a test looks at data that is not the latest read")
+                t.add(e)
+                f.add(e)
+            elif keep_true(cls):
+                t.add(e)
+            else:
+                f.add(e)
+        return frozenset(t), frozenset(f)
+
+    # -- expressions -------------------------------------------------------------
+    def val(self, x, st):
+        """(state after the side effects of x, description of its value or None)"""
+        x = cfront.strip(x)
+        k = x.get("kind")
+        inner = _sk_inner(x)
+        if k in ("IntegerLiteral", "CharacterLiteral", "GNUNullExpr", "CXXNullPtrLiteralExpr", "StringLiteral", "CXXBoolLiteralExpr",
+                 "FloatingLiteral", "CXXThisExpr"):
+            v = _sk_const(x)
+            return st, (("const", v) if v is not None else None)
+        if k == "UnaryOperator" and x.get("opcode") == "-" and _sk_const(x) is not None:
+            return st, ("const", _sk_const(x))
+        if k == "DeclRefExpr":
+            nm = _sk_name(x)
+            hs = [s for s in self.sites.values() if nm in s["holders"]]
+            if hs:
+                kind = "char" if all(s["kind"] == "char" for s in hs) else ("fres" if all(s["kind"] == "line" for s in hs) else None)
+                if kind is None:
+                    self.note("variable %s holds results of different kinds of reads" % nm)
+                    return st, None
+                return st, (kind, lambda s, nm=nm: nm in s["holders"])
+            if nm in self.aliases:
+                return st, ("len", lambda s, b=self.aliases[nm]: s["buf"] == b)
+            if nm in self.tainted:
+                return st, ("taint", nm)
+            return st, None
+        if k == "MemberExpr":
+            return st, None
+        if k in ("CallExpr", "CXXMemberCallExpr", "CXXOperatorCallExpr"):
+            return self.call(x, st)
+        if k == "CXXConstructExpr" or k == "CXXThrowExpr" or k == "CXXTemporaryObjectExpr":
+            for c in inner:
+                st, r = self.val(c, st)
+                self.escape(r, "is passed on")
+            return st, None
+        if k == "ArraySubscriptExpr":
+            b = _sk_name(inner[0])
+            st, ri = self.val(inner[1], st) if not self._is_last_index(inner[1], b) else (st, None)
+            if b and any(s["buf"] == b for s in self.sites.values()):
+                if self._is_last_index(inner[1], b):
+                    return st, ("lastchar", lambda s, b=b: s["buf"] == b)
+                return st, ("taint", b)
+            st, rb = self.val(inner[0], st)
+            self.escape(rb, "is indexed")
+            self.escape(ri, "is used as an index")
+            return st, None
+        if k == "UnaryOperator":
+            op = x.get("opcode")
+            if op in ("++", "--"):
+                v = _sk_name(inner[0])
+                if v in self.counters:
+                    return self.count(st), ("ctr", v)
+                if v in self.tainted:
+                    self.note("%s is modified" % v)
+                elif id(x) in self.inloop:
+                    self.note("other state (%s) is updated inside the skip loop" % v)
+                return st, None
+            if op == "!":
+                t, f = self.cond(x, st)
+                return t | f, None
+            st, r = self.val(inner[0], st)
+            if op == "&" and r is not None:
+                self.escape(r, "has its address taken")
+            elif r is not None and r[0] != "const":
+                self.escape(r, "is used in arithmetic")
+            return st, None
+        if k == "CompoundAssignOperator":
+            v = _sk_name(inner[0])
+            st, r = self.val(inner[1], st)
+            self.escape(r, "flows into %s" % v)
+            if v in self.counters:
+                if self._step_of(x) == v:
+                    return self.count(st), ("ctr", v)
+                self.note("the row counter %s is changed by something other than one" % v)
+            elif v in self.tainted:
+                self.note("%s is modified" % v)
+            elif id(x) in self.inloop:
+                self.note("other state (%s) is updated inside the skip loop" % v)
+            return st, None
+        if k == "BinaryOperator":
+            op = x.get("opcode")
+            if op == "=":
+                return self.assign(_sk_name(inner[0]), inner[0], inner[1], x, st)
+            if op in ("&&", "||", "==", "!=", "<", ">", "<=", ">="):
+                t, f = self.cond(x, st)
+                return t | f, None
+            if op == ",":
+                st, _ = self.val(inner[0], st)
+                return self.val(inner[1], st)
+            st, a = self.val(inner[0], st)
+            st, b = self.val(inner[1], st)
+            self.escape(a, "is used in arithmetic")
+            self.escape(b, "is used in arithmetic")
+            return st, None
+        if k == "ConditionalOperator":
+            t, f = self.cond(inner[0], st)
+            t, a = self.val(inner[1], t)
+            f, b = self.val(inner[2], f)
+            self.escape(a, "is selected")
+            self.escape(b, "is selected")
+            return t | f, None
+        if k in ("UnaryExprOrTypeTraitExpr",):
+            return st, None
+        for c in inner:
+            st, r = self.val(c, st)
+            self.escape(r, "is used in %s" % k)
+        return st, None
+
+    def escape(self, r, how):
+        if r is not None and r[0] in ("char", "fres", "taint", "lastchar", "hasnl", "len"):
+            self.note("data read from the file %s (not modelled)" % how)
+
+    def _is_last_index(self, idx, b):
+        """idx is strlen(b) - 1 (directly or through a variable that is strlen(b))"""
+        i = cfront.strip(idx)
+        if i.get("kind") == "BinaryOperator" and i.get("opcode") == "-" and _sk_const(_sk_inner(i)[1]) == 1:
+            l = cfront.strip(_sk_inner(i)[0])
+            if l.get("kind") == "CallExpr" and cfront.callee_name(l) == "strlen" and _sk_name(cfront.call_args(l)[0]) == b:
+                return True
+            if _sk_name(l) is not None and self.aliases.get(_sk_name(l)) == b:
+                return True
+        return False
+
+    def assign(self, v, lhs, rhs, node, st):
+        st, r = self.val(rhs, st)
+        if v is None:
+            st, rl = self.val(lhs, st)
+            self.escape(r, "is stored")
+            self.note("store through %s" % cfront.render(lhs)[:40])
+            return st, None
+        if r is not None and r[0] in ("char", "fres") and id(cfront.strip(rhs)) in self.sites:
+            return st, r                      # v is a recorded holder of that read
+        if v in self.aliases and cfront.strip(rhs).get("kind") == "CallExpr" and cfront.callee_name(cfront.strip(rhs)) == "strlen":
+            return st, None
+        if v in self.counters:
+            if self._step_of(node) == v:
+                return self.count(st), ("ctr", v)
+            if id(node) in self.inloop:
+                self.note("the row counter %s is reassigned inside the loop" % v)
+            self.escape(r, "flows into the row counter")
+            return st, None
+        self.escape(r, "is copied into %s" % v)
+        if v in self.tainted:
+            self.note("%s is assigned from something that is not a read" % v)
+        elif id(node) in self.inloop:
+            self.note("other state (%s) is updated inside the skip loop" % v)
+        return st, None
+
+    def call(self, x, st):
+        nm = cfront.callee_name(x)
+        args = cfront.call_args(x)
+        if id(x) in self.sites:
+            site = self.sites[id(x)]
+            st2 = self.consume(st, x)
+            if site["kind"] == "char":
+                return st2, ("char", lambda s, i=id(x): s is self.sites[i])
+            if site["kind"] == "line":
+                return st2, ("fres", lambda s, i=id(x): s is self.sites[i])
+            return st2, None
+        if x.get("kind") == "CXXMemberCallExpr":
+            callee = cfront.strip(x["inner"][0])
+            obj = cfront.strip(_sk_inner(callee)[0]) if _sk_inner(callee) else {}
+            if obj.get("kind") == "CXXThisExpr":
+                raise _SkUnsup("call of the member function %s, which may move the file cursor" % nm)
+        if any(_sk_is_file(a) for a in args):
+            if nm in _SK_NEUTRAL:
+                return st, None
+            raise _SkUnsup("call %s on the stream is not modelled" % nm)
+        if nm in ("strchr", "memchr", "index", "strrchr", "rindex") and len(args) >= 2 and _sk_const(args[1]) == 10:
+            b = _sk_name(args[0])
+            if b and any(s["buf"] == b for s in self.sites.values()):
+                return st, ("hasnl", lambda s, b=b: s["buf"] == b)
+        if nm == "strlen" and len(args) == 1 and _sk_name(args[0]) in self.tainted:
+            return st, ("len", lambda s, b=_sk_name(args[0]): s["buf"] == b)
+        for a in (x.get("inner", []) or [])[(0 if x.get("kind") == "CXXOperatorCallExpr" else 1):]:
+            if isinstance(a, dict) and a.get("kind"):
+                st, r = self.val(a, st)
+                self.escape(r, "is passed to %s" % nm)
+        return st, None
+
+    def cond(self, x, st):
+        """(state when x is true, state when x is false)"""
+        x = cfront.strip(x)
+        k = x.get("kind")
+        inner = _sk_inner(x)
+        if k == "UnaryOperator" and x.get("opcode") == "!":
+            t, f = self.cond(inner[0], st)
+            return f, t
+        if k == "BinaryOperator" and x.get("opcode") in ("&&", "||"):
+            at, af = self.cond(inner[0], st)
+            if x["opcode"] == "&&":
+                bt, bf = self.cond(inner[1], at)
+                return bt, af | bf
+            bt, bf = self.cond(inner[1], af)
+            return at | bt, bf
+        if k == "BinaryOperator" and x.get("opcode") in ("==", "!=", "<", ">", "<=", ">="):
+            op = x["opcode"]
+            # the idiom `while (n-- > 0)`: the step counts a row only when the test succeeds
+            for a, b in ((inner[0], inner[1]), (inner[1], inner[0])):
+                sa = cfront.strip(a)
+                if sa.get("kind") == "UnaryOperator" and sa.get("opcode") in ("++", "--") and _sk_name(_sk_inner(sa)[0]) in self.counters \
+                        and op != "==":
+                    st2, _ = self.val(b, st)
+                    return self.count(st2), st2
+            st, ra = self.val(inner[0], st)
+            st, rb = self.val(inner[1], st)
+            if ra is not None and rb is not None and ra[0] == "const" and rb[0] != "const":
+                ra, rb = rb, ra
+            if ra is not None and ra[0] in ("char", "fres", "hasnl", "lastchar") and rb is not None and rb[0] == "const" and op in ("==", "!="):
+                kv = rb[1]
+                if ra[0] == "char":
+                    t, f = self.refine(st, ra[1], lambda c, kv=kv: (c == "NL") if kv == 10 else (c == ("lit", kv)))
+                elif ra[0] == "fres" and kv == 0:
+                    t, f = self.refine(st, ra[1], lambda c: False)
+                elif ra[0] == "hasnl" and kv == 0:
+                    t, f = self.refine(st, ra[1], lambda c: c == "NO_NL")
+                elif ra[0] == "lastchar" and kv == 10:
+                    t, f = self.refine(st, ra[1], lambda c: c == "ENDS_NL")
+                else:
+                    self.escape(ra, "is compared with %s" % kv)
+                    return st, st
+                return (t, f) if op == "==" else (f, t)
+            if ra is not None and rb is not None and ra[0] == "const" and rb[0] == "len":
+                ra, rb, op = rb, ra, {"<": ">", ">": "<", "<=": ">=", ">=": "<="}.get(op, op)
+            if ra is not None and ra[0] == "len" and rb is not None and rb[0] == "const":
+                # a chunk that was read holds at least one character: its length is >= 1 whatever it ends in
+                if (op, rb[1]) in ((">", 0), ("!=", 0), (">=", 1)):
+                    return self.refine(st, ra[1], lambda c: True)
+                if (op, rb[1]) in (("==", 0), ("<=", 0), ("<", 1)):
+                    return self.refine(st, ra[1], lambda c: False)
+            self.escape(ra, "is compared")
+            self.escape(rb, "is compared")
+            return st, st
+        st, r = self.val(x, st)
+        if r is not None and r[0] == "fres":
+            return self.refine(st, r[1], lambda c: True)
+        if r is not None and r[0] == "hasnl":
+            return self.refine(st, r[1], lambda c: c == "ENDS_NL")
+        self.escape(r, "is used as a condition")
+        return st, st
+
+    # -- fixpoint ------------------------------------------------------------------
+    def stmt(self, c, st):
+        k = c.get("kind")
+        if k == "DeclStmt":
+            for d in _sk_inner(c):
+                if d.get("kind") == "VarDecl" and d.get("name") and "init" in d and _sk_inner(d):
+                    st, _ = self.assign(d["name"], None, _sk_inner(d)[-1], d, st)
+            return st
+        if k in ("BreakStmt", "ContinueStmt", "NullStmt"):
+            return st
+        if k == "ReturnStmt":
+            for e in _sk_inner(c):
+                st, r = self.val(e, st)
+                self.escape(r, "is returned")
+            return st
+        st, _ = self.val(c, st)
+        return st
+
+    def ex(self, s, st):
+        """abstract execution of a structured statement: the state on its normal exit (break / continue / return states are collected)"""
+        E = frozenset()
+        k = s.get("kind")
+        raw = [c for c in (s.get("inner", []) or []) if isinstance(c, dict)]
+        if k == "CompoundStmt":
+            for c in raw:
+                if c.get("kind"):
+                    st = self.ex(c, st)
+            return st
+        if k == "IfStmt":
+            if s.get("hasInit") or s.get("hasVar") or not 2 <= len(raw) <= 3:
+                raise _SkUnsup("if statement with a declaration")
+            t, f = self.cond(raw[0], st)
+            a = self.ex(raw[1], t)
+            b = self.ex(raw[2], f) if len(raw) == 3 else f
+            return a | b
+        if k in ("WhileStmt", "DoStmt", "ForStmt"):
+            if k == "ForStmt":
+                init, cv, cnd, inc, body = (raw + [{}] * 5)[:5]
+                if cv.get("kind"):
+                    raise _SkUnsup("for statement with a condition variable")
+                if init.get("kind"):
+                    st = self.ex(init, st)
+            elif k == "WhileStmt":
+                if len(raw) != 2:
+                    raise _SkUnsup("while statement with a declaration")
+                cnd, body, inc = raw[0], raw[1], {}
+            else:
+                body, cnd, inc = raw[0], raw[1], {}
+            head = st
+            for _ in range(400):
+                self.brk.append(E)
+                self.cont.append(E)
+                if k == "DoStmt":
+                    out = self.ex(body, head)
+                    t, f = self.cond(cnd, out | self.cont[-1])
+                    back = t
+                else:
+                    t, f = self.cond(cnd, head) if cnd.get("kind") else (head, E)
+                    out = self.ex(body, t) | self.cont[-1]
+                    back = self.ex(inc, out) if inc.get("kind") else out
+                brk = self.brk.pop()
+                self.cont.pop()
+                new = head | back
+                if new == head:
+                    return f | brk
+                head = new
+            raise _SkUnsup("no fixpoint")
+        if k == "BreakStmt":
+            if not self.brk:
+                raise _SkUnsup("break outside a loop")
+            self.brk[-1] = self.brk[-1] | st
+            return E
+        if k == "ContinueStmt":
+            if not self.cont:
+                raise _SkUnsup("continue outside a loop")
+            self.cont[-1] = self.cont[-1] | st
+            return E
+        if k == "ReturnStmt":
+            st = self.stmt(s, st)
+            self.ret = self.ret | st
+            return E
+        if k == "NullStmt":
+            return st
+        if k == "CXXThrowExpr" or cfront.strip(s).get("kind") == "CXXThrowExpr":
+            return E
+        if k in ("SwitchStmt", "GotoStmt", "LabelStmt", "CXXTryStmt", "CaseStmt", "DefaultStmt"):
+            raise _SkUnsup(k)
+        return self.stmt(s, st)
+
+    def run(self):
+        """(counter names, elements at the normal returns with balance < 0, with balance > 0)"""
+        if not self.sites:
+            raise _SkUnsup("no read of the stream found in the row skipper")
+        if len(self.counters) != 1:
+            raise _SkUnsup("row counter not identified (candidates: %s)" % sorted(self.counters))
+        self.brk, self.cont, self.ret = [], [], frozenset()
+        end = self.ex(self.body, frozenset([(0, None, None, None)])) | self.ret
+        return sorted(self.counters), [e for e in end if e[0] < 0], [e for e in end if e[0] > 0]
+
+    def describe(self, e, blame=False):
+        sid, cls = (e[3] if e[3] is not None else (e[1], e[2])) if blame else (e[1], e[2])
+        if sid is None:
+            return "nothing was read"
+        s = self.sites[sid]
+        what = {"NL": "a newline", "OTHER": "a character that is not a newline", "ENDS_NL": "a chunk that ends in a newline",
+                "NO_NL": "a chunk without a newline (a row longer than the buffer fills it before the newline is reached)",
+                "FULL": "a whole line"}.get(cls, "the character %r" % chr(cls[1]) if isinstance(cls, tuple) and 0 <= cls[1] < 256 else str(cls))
+        return "%s (line %s) returned %s" % (s["text"], s["line"], what)
+
+
+def _r02_7j_semantic(chk, cfun):
+    fn = cfun.get("Records::skip_text_rows")
+    if fn is None:
+        return
+    key = "sem::Records::skip_text_rows::row-counted-iff-newline-consumed"
+    msg = "the text row skipper advances its row counter exactly when it has consumed that row's newline"
+    try:
+        an = _SkipCount(fn)
+        ctr, neg, pos = an.run()
+    except _SkUnsup as e:
+        chk.ob("R02.7j", key, None, _cwhere(fn), "%s (not recognised: %s)" % (msg, e))
+        return
+    except AnalysisError:
+        raise
+    except Exception as e:            # a defect of the analysis must never become a verdict
+        chk.ob("R02.7j", key, None, _cwhere(fn), "%s (analysis failed: %s: %s)" % (msg, type(e).__name__, e))
+        return
+    chk.assume("the rows to skip exist in the file (row selections are range checked): reads inside the skipped region do not hit EOF")
+    if neg and not an.imprecise:
+        chk.ob("R02.7j", key, False, _cwhere(fn),
+               "%s: on return the counter %s can be ahead of the newlines consumed -- a row is counted although %s"
+               % (msg, ctr[0], "; or ".join(sorted({an.describe(e, blame=True) for e in (
+                      [x for x in neg if (x[3] or (x[1], x[2]))[1] not in _SK_NLCLS] or neg)})[:3])))
+    elif neg or pos or an.imprecise:
+        why = an.imprecise[:2] or ["a newline may be consumed without being counted (%s)" % "; ".join(sorted({an.describe(e) for e in pos})[:2])]
+        chk.ob("R02.7j", key, None, _cwhere(fn), "%s (not decided: %s)" % (msg, "; ".join(why)))
+    else:
+        chk.ob("R02.7j", key, True, _cwhere(fn),
+               "%s: at every return the number of steps of %s equals the number of newlines consumed (reads: %s)"
+               % (msg, ctr[0], ", ".join(sorted({s["text"] for s in an.sites.values()}))))
 
 
 def _r02_7j_structural(chk, cfun):
